@@ -255,6 +255,9 @@ where
             if self.signal_pending.take().is_some() {
                 if let Some(excluded) = excluded {
                     self.transition(excluded, Event::Signal);
+                    // at most one round of signals per call: a signal raised
+                    // here must not leak into the next call
+                    self.signal_pending = None;
                 }
             }
         }
